@@ -109,10 +109,25 @@ def go_build_race(cmd):
     _built[('go-race', cmd)] = True
 
 
+def refresh_generated():
+    """The generated Lean inputs (Smtb/Gen/Facts.lean) must describe /repo's CURRENT tree before
+    anything that imports them is built: an earlier run on a different tree may have left another
+    version behind.  Failures are left to the check that owns the facts."""
+    if _built.get('generated'):
+        return
+    _built['generated'] = True
+    try:
+        go_build(['xtool'])
+        regen_facts()
+    except Exception:
+        pass
+
+
 def lake_build(targets):
     key = ('lake', tuple(targets))
     if _built.get(key):
         return
+    refresh_generated()
     p = run(['lake', 'build'] + list(targets), cwd=LEAN, env=dict(os.environ))
     if p.returncode != 0:
         raise TieBroken('lean-build', 'lake build failed:\n' + (p.stdout + p.stderr)[-4000:])
